@@ -142,6 +142,8 @@ def generate(seed, tier):
                 near = True
                 src = pre + src + post
         ops.append({'op': k, 'src': src, 'pool': i, 'near': near, 'space': ro.randrange(2), 'entropy': ro.randrange(2 ** 32)})
+        if k == 'eval' and rf.random() < 0.08:
+            ops[-1]['budget'] = rf.randint(1, 12)       # the evaluation is cut short by the ops limit (in both worlds alike)
     return {'world': world, 'ops': ops, 'pool': pool}
 
 
@@ -200,12 +202,12 @@ def _call(side, op):
             rec.value_hooks = (hooks.address_taint_hook,)
             try:
                 with monitors.recording(rec):
-                    v = side.parser.eval(op['src'], side.spaces[op['space']], max_ops_evaluated=2000)
+                    v = side.parser.eval(op['src'], side.spaces[op['space']], max_ops_evaluated=op.get('budget', 2000))
             finally:
                 if rec.tainted:
                     side.tainted = True
         else:
-            v = side.parser.eval(op['src'], side.spaces[op['space']], max_ops_evaluated=2000)
+            v = side.parser.eval(op['src'], side.spaces[op['space']], max_ops_evaluated=op.get('budget', 2000))
         if isinstance(v, (list, dict)):
             side.results.append(v)
         return ['value', canon.canon(v, monitors.M.fn_names)]
